@@ -21,3 +21,6 @@ package util
 // server's configuration generator.
 //@ callers os.Create only keymasterd.generateRSAKeyAndSaveInFile, keymasterd.generateCertAndWriteToFile  #C19.no-default-mode-files-in-client @C19
 //@ callers os.OpenFile only keymasterd.generateArmoredEncryptedCAPrivateKey  #C19.no-openfile-in-client @C19
+// ... and no code of /repo changes the mode of a file afterwards (a key file stays as it was created)
+//@ callers os.Chmod only none  #C19.no-mode-change-after-creation @C19
+//@ callers (*os.File).Chmod only none  #C19.no-mode-change-through-a-handle @C19
